@@ -414,3 +414,31 @@ func (p SchemaIPC) Unpack() *arrow.Schema {
 	defer rd.Release()
 	return rd.Schema()
 }
+
+// StreamsDiff compares two decoded stream sequences: schemas, batch counts,
+// values (NaN-aware) and custom metadata as a multiset (the framework renders
+// per-emit metadata from a Go map, so key order is not part of any contract).
+// Returns "" when equivalent.
+func StreamsDiff(a, b []StreamM, skipMeta ...string) string {
+	if len(a) != len(b) {
+		return fmt.Sprintf("stream count %d vs %d", len(a), len(b))
+	}
+	for i := range a {
+		if d := SchemaDiff(a[i].Schema, b[i].Schema); d != "" {
+			return fmt.Sprintf("stream %d schema: %s", i, d)
+		}
+		if len(a[i].Batches) != len(b[i].Batches) {
+			return fmt.Sprintf("stream %d batch count %d vs %d", i, len(a[i].Batches), len(b[i].Batches))
+		}
+		for j := range a[i].Batches {
+			if d := BatchDiff(a[i].Batches[j].Rec, b[i].Batches[j].Rec); d != "" {
+				return fmt.Sprintf("stream %d batch %d: %s", i, j, d)
+			}
+			ma, mb := MetaMultiset(a[i].Batches[j].Meta, skipMeta...), MetaMultiset(b[i].Batches[j].Meta, skipMeta...)
+			if !reflect.DeepEqual(ma, mb) {
+				return fmt.Sprintf("stream %d batch %d metadata: %v vs %v", i, j, ma, mb)
+			}
+		}
+	}
+	return ""
+}
